@@ -324,14 +324,20 @@ structure BOpts where
   mid : List Nat        -- zoom directory, autoSql text, total summary, data count
   tail : List Nat
 
+/-- the number of entries after which the writer cuts a data block: the option, capped at 65535 like the bigWig
+writer's (`bigbedwrite.rs`, `let max_items = (options.items_per_slot as usize).min(u16::MAX as usize)`; D22) -/
+def BOpts.cut (o : BOpts) : Nat := min o.ips 65535
+
+theorem BOpts.cut1 (o : BOpts) (h : 0 < o.ips) : 0 < o.cut := by unfold BOpts.cut; omega
+
 def bedFileOf (o : BOpts) (cs : List ChromBedIn) : BedFile :=
   { zoomCount := o.zc, dataOff := o.dof, fieldCount := o.fc, definedFieldCount := o.dfc, autoSqlOff := o.aso,
     summaryOff := o.so, bufSize := o.bs, mid := o.mid,
-    sections := bedSectionsFrom o.ips 0 cs, keySize := bedKeySizeOf cs, chromBlockSize := max 256 cs.length,
+    sections := bedSectionsFrom o.cut 0 cs, keySize := bedKeySizeOf cs, chromBlockSize := max 256 cs.length,
     chroms := bedChromsFrom 0 cs, blockSize := o.b, itemsPerSlot := o.ips,
-    rootSpan := ((build true o.b ((mkBSecs (64 + o.mid.length) (bedSectionsFrom o.ips 0 cs)).map BSec.sec)).map
+    rootSpan := ((build true o.b ((mkBSecs (64 + o.mid.length) (bedSectionsFrom o.cut 0 cs)).map BSec.sec)).map
       (spanOf true)).getD ⟨⟨0, 0⟩, ⟨0, 0⟩⟩,
-    levels := (levelsOf true o.b ((mkBSecs (64 + o.mid.length) (bedSectionsFrom o.ips 0 cs)).map BSec.sec)).getD [],
+    levels := (levelsOf true o.b ((mkBSecs (64 + o.mid.length) (bedSectionsFrom o.cut 0 cs)).map BSec.sec)).getD [],
     tail := o.tail }
 
 structure ValidBedInput (o : BOpts) (cs : List ChromBedIn) : Prop where
@@ -360,12 +366,12 @@ theorem bed_sections_ne_nil (ips : Nat) (hips : 0 < ips) (cs : List ChromBedIn) 
     omega
 
 theorem bedFileOf_valid (o : BOpts) (cs : List ChromBedIn) (h : ValidBedInput o cs) : (bedFileOf o cs).Valid := by
-  have hsne := bed_sections_ne_nil o.ips h.ips1 cs h.nonempty h.chroms
-  have hdsne : mkBSecs (64 + o.mid.length) (bedSectionsFrom o.ips 0 cs) ≠ [] := by
-    cases hs : bedSectionsFrom o.ips 0 cs with
+  have hsne := bed_sections_ne_nil o.cut (o.cut1 h.ips1) cs h.nonempty h.chroms
+  have hdsne : mkBSecs (64 + o.mid.length) (bedSectionsFrom o.cut 0 cs) ≠ [] := by
+    cases hs : bedSectionsFrom o.cut 0 cs with
     | nil => exact absurd hs hsne
     | cons x xs => simp [mkBSecs]
-  have hbytes : 64 + o.mid.length + (bedDataBytes (bedSectionsFrom o.ips 0 cs)).length ≤ (bedFileOf o cs).bytes.length := by
+  have hbytes : 64 + o.mid.length + (bedDataBytes (bedSectionsFrom o.cut 0 cs)).length ≤ (bedFileOf o cs).bytes.length := by
     simp only [BedFile.bytes, bedFileOf, List.length_append, bedHeaderBytes_length]
     omega
   refine
@@ -383,12 +389,12 @@ theorem bedFileOf_valid (o : BOpts) (cs : List ChromBedIn) (h : ValidBedInput o 
     · rw [h2]; exact hok.size
   · show ((bedChromsFrom 0 cs).map (·.1)).Nodup
     rw [bedChromsFrom_names]; exact h.names
-  · exact bed_section_ok o.ips cs h.chroms h.nchroms (64 + o.mid.length) _ hbytes h.size
-  · exact bds_sorted o.ips h.ips1 cs h.chroms _
+  · exact bed_section_ok o.cut cs h.chroms h.nchroms (64 + o.mid.length) _ hbytes h.size
+  · exact bds_sorted o.cut (o.cut1 h.ips1) cs h.chroms _
   · show levelsOf true o.b _ = some ((levelsOf true o.b _).getD [])
-    obtain ⟨Ls, hLs⟩ := levelsOf_some o.b h.b2 ((mkBSecs (64 + o.mid.length) (bedSectionsFrom o.ips 0 cs)).map BSec.sec)
+    obtain ⟨Ls, hLs⟩ := levelsOf_some o.b h.b2 ((mkBSecs (64 + o.mid.length) (bedSectionsFrom o.cut 0 cs)).map BSec.sec)
       (by simpa using hdsne)
-    have : (bedFileOf o cs).ds = mkBSecs (64 + o.mid.length) (bedSectionsFrom o.ips 0 cs) := rfl
+    have : (bedFileOf o cs).ds = mkBSecs (64 + o.mid.length) (bedSectionsFrom o.cut 0 cs) := rfl
     rw [this, hLs]; rfl
 
 /-- **C02 for the model writer (little-endian, uncompressed, repaired span rule): write, then read.** For every
@@ -409,8 +415,8 @@ theorem bed_model_roundtrip (o : BOpts) (cs : List ChromBedIn) (h : ValidBedInpu
   obtain ⟨fuel₀, hf⟩ := bed_file_roundtrip (bedFileOf o cs) hv (cs[j].name, j, cs[j].size) hmem qs qe
   refine ⟨fuel₀, fun fuel hfuel => ?_⟩
   rw [hf fuel hfuel]
-  have : (bedFileOf o cs).ds = mkBSecs (64 + o.mid.length) (bedSectionsFrom o.ips 0 cs) := rfl
-  rw [this, bed_sections_of_id o.ips h.ips1 cs 0 _ j]
+  have : (bedFileOf o cs).ds = mkBSecs (64 + o.mid.length) (bedSectionsFrom o.cut 0 cs) := rfl
+  rw [this, bed_sections_of_id o.cut (o.cut1 h.ips1) cs 0 _ j]
   simp [hj]
 
 end BBI
